@@ -192,11 +192,16 @@ let model_ops (v : Zar.t array) (t : string array) : op list option =
   | "neg" -> Some [ ONeg (n 1) ]
   | "negr" -> Some [ OClone (tmp, ByRef (n 2)); ONeg tmp; OMove (n 1, tmp) ]
   | "abs" -> Some [ OAbs (n 1) ]
-  | "uadd" | "usub" | "umul" ->
+  | "uadd" | "usub" | "umul" | "uand" | "uor" | "uxor" | "udiv" | "urem" ->
       if not (nonneg [ s 3; s 4 ]) then Some []
-      else Some (forms (match t.(0) with "uadd" -> BAdd | "usub" -> BSub | _ -> BMul) t.(1) (s 2) (s 3) (s 4))
-  | "iadd" | "isub" | "imul" ->
-      Some (forms (match t.(0) with "iadd" -> BIAdd | "isub" -> BISub | _ -> BIMul) t.(1) (s 2) (s 3) (s 4))
+      else Some (forms (match t.(0) with "uadd" -> BAdd | "usub" -> BSub | "umul" -> BMul | "uand" -> BAnd | "uor" -> BOr
+                                         | "uxor" -> BXor | "udiv" -> BDiv | _ -> BRem) t.(1) (s 2) (s 3) (s 4))
+  | "iadd" | "isub" | "imul" | "idiv" | "irem" ->
+      Some (forms (match t.(0) with "iadd" -> BIAdd | "isub" -> BISub | "imul" -> BIMul | "idiv" -> BIDiv | _ -> BIRem) t.(1) (s 2) (s 3) (s 4))
+  | "iand" | "ior" | "ixor" ->
+      (* the machine has the magnitude routines; the two's-complement sign tables of negative operands are not modelled *)
+      if nonneg [ s 3; s 4 ] then Some (forms (match t.(0) with "iand" -> BAnd | "ior" -> BOr | _ -> BXor) t.(1) (s 2) (s 3) (s 4))
+      else None
   | "shl" | "shr" ->
       if not (nonneg [ s 3 ]) then Some []
       else let a = if t.(1) = "r" then ByRef (n 3) else ByVal (n 3) in
@@ -230,7 +235,12 @@ let judge op args got =
       let v = Array.make 4 Zar.zero in
       let pool = ref [ zero; zero; zero; zero; zero; zero ] in
       let mem = ref mem0 in
-      let diffs = ref 0 and modelled = ref 0 and crossings = ref 0 and heap_seen = ref false and reallocs = ref 0 in
+      let diffs = ref 0 and modelled = ref 0 and crossings = ref 0 and heap_seen = ref false in
+      (* threshold events of the modelled ARITHMETIC steps of this history (statistic path=...):
+         u inline -> heap, d heap -> inline, g reallocation to a larger capacity, s shrink (from_buffer's
+         shrink_to_fit), f a step that ends with len = capacity, c with capacity = max_compact_capacity(len) *)
+      let events = Hashtbl.create 7 in
+      let prev_caps = Array.make 4 1 in
       let problem = ref None in
       let bad i what = if !problem = None then problem := Some (Printf.sprintf "step %d: %s" i what) in
       let run_op o =
@@ -284,7 +294,25 @@ let judge op args got =
          | _ -> if !problem = None then resync_all i caps);
         if !problem = None && (Zar.to_int (nlive !mem) <> live || Zar.to_int (nwords !mem) <> words) then
           bad i (Printf.sprintf "ghost heap of the machine: %s blocks %s words, allocator: %d %d" (Zar.to_string (nlive !mem)) (Zar.to_string (nwords !mem)) live words);
-        ignore reallocs) steps;
+        let arith = match t.(0) with
+          | "uadd" | "usub" | "umul" | "iadd" | "isub" | "imul" | "shl" | "shr" | "setbit" | "clrbit"
+          | "uand" | "uor" | "uxor" | "iand" | "ior" | "ixor" | "udiv" | "urem" | "idiv" | "irem"
+          | "addp" | "subp" | "mulp" | "sadd" | "smul" -> ops <> None && ops <> Some []
+          | _ -> false in
+        if arith then
+          for k = 0 to 3 do
+            let pc = abs prev_caps.(k) and cc = abs caps.(k) in
+            let ev c = Hashtbl.replace events c () in
+            if pc <= 2 && cc > 2 then ev 'u'
+            else if pc > 2 && cc <= 2 then ev 'd'
+            else if pc > 2 && cc > pc then ev 'g'
+            else if pc > 2 && cc < pc then ev 's';
+            if cc > 2 && (pc <> cc || k = d) then begin
+              if lens.(k) = cc then ev 'f';
+              if cc = lens.(k) + lens.(k) / 4 + 4 then ev 'c'
+            end
+          done;
+        Array.blit caps 0 prev_caps 0 4) steps;
       (* end of the history *)
       if !problem = None then begin
         if take () <> "E" then failwith "protocol";
@@ -302,8 +330,9 @@ let judge op args got =
       (match !problem with
        | Some p -> fail p
        | None ->
+           let evs = String.concat "" (List.filter_map (fun c -> if Hashtbl.mem events c then Some (String.make 1 c) else None) [ 'u'; 'd'; 'g'; 's'; 'f'; 'c' ]) in
            let extra = Printf.sprintf "asis=%s cls=cross%d path=%s" (if !modelled = 0 then "na" else if !diffs = 0 then "same" else "diff")
-               (min !crossings 5) (if !diffs = 0 then "tracked" else "resync") in
+               (min !crossings 5) ((if !diffs = 0 then "tracked" else "resync") ^ (if evs = "" then "" else "-" ^ evs)) in
            pass ~nt:!heap_seen ~extra ())
   | _ -> fail ("history completes: " ^ String.concat " " got)
 
